@@ -33,6 +33,13 @@ def run(ctx: Ctx):
     index_space_zip(ctx)
     display_translation(ctx)
     duplicates(ctx)
+    from ..orderkit import explicit_order_facts
+    from . import c07
+
+    _m = ctx.repo.lookup(ctx.repo.cls("collator.py", "ExplicitOrderCollator"), "_element_order_descriptors")
+    if _m is not None:
+        _f = explicit_order_facts(_m.node)
+        c07.explicit_order_model(ctx, _m, "collator.py::ExplicitOrderCollator._element_order_descriptors", recognised=bool(_f["listed_loop"] and _f["listed_pop_guarded"] and _f["leftovers"]))
     rendering_typestate(ctx)
     shape(ctx)
     from .common import index_space_lints
@@ -124,7 +131,7 @@ def _display_props(ctx: Ctx, ci) -> Set[str]:
     """Names of members of `ci` whose value is in DISPLAY index space (assembled / order-derived)."""
     disp: Set[str] = set()
     changed = True
-    members = {n: m for c in ci.mro for n, m in c.members.items() if m.kind in ("lazyproperty", "property")}
+    members = {n: m for c in reversed(ci.mro) for n, m in c.members.items() if m.kind in ("lazyproperty", "property")}  # the most derived definition wins
     bodies = {n: SUMMARIZER.summarize(m.node) for n, m in members.items()}
     seeds = {"_row_order_signed_indexes", "_column_order_signed_indexes", "_row_order_bogus_ids"}
     disp |= seeds & set(members)
@@ -684,3 +691,13 @@ def shape(ctx: Ctx):
     st = ctx.repo.cls(CP, "_Strand")
     e = expand(ctx.repo, st, "shape", stop=lambda m: m.name != "row_count")
     ctx.check_expr("shape", f"{CP}::_Strand.shape", e, f"(len({ROW_ORD}),)")
+    # must-pass-through: the reported extent is READ OFF the display order (or an assembled output), never computed a second
+    # time from hidden / pruned counts - two computations agree only while no element is both hidden and pruned, no
+    # subtotal is pruned, ...
+    for ci in (sl, st):
+        disp = _display_props(ctx, ci)
+        for name in ("shape", "row_count", "is_empty"):
+            if ctx.repo.lookup(ci, name) is None:
+                continue
+            ctx.ob("shape.from-display", f"{CP}::{ci.name}.{name}", "derived from the display order / an assembled output" if name in disp else "computed apart from the display order",
+                   "derived from the display order / an assembled output", name in disp, "each output's extent matches the partition's reported shape")
